@@ -414,3 +414,28 @@ def c09_fit_real(ctx, dim, isometry, kind, system):
         ctx.ensure(f"shift {sh}: result carries the destination coordinate system", bool(np.allclose(res.origin, dst.origin)) and bool(np.allclose(res.dimensions, dst.dimensions))
                    and res.img.shape[:dim] == dshape)
         ctx.ensure(f"shift {sh}: input image untouched", bool(np.array_equal(src.img, arr)))
+
+
+@ob("C09.typed_dtypes", kind="B", cases=product_cases(dim=(2, 3), dtype=("int64", "int32", "float32", "float64"), form=("array", "single", "typed-array")), funcs=FUNCS, samples=(3, 8), tol=1e-5,
+    cite="an affine map followed by its inverse (in either order) returns the original points ... for every parameter choice (points handed over in any numeric dtype)",
+    note="bounded: the numeric dtype of a point array is invisible to the symbolic model (object arrays); points stored as integers / float32 must be mapped like the same points "
+         "stored as float64 (after seed C09_e: result cast back to the input dtype)")
+def c09_typed_dtypes(ctx, dim, dtype, form):
+    T, t, s, th = make_affine(ctx, dim, "all")
+    proto = np.zeros((2, dim))
+    T.set_dtype(darsia.make_coordinate(proto), darsia.make_coordinate(proto))
+    Xi = np.array([[ctx.int(f"p{r}_{m}", lo=-6, hi=6) for m in range(dim)] for r in range(3)])
+    X = Xi.astype(dtype)
+    ref = T.call_array(Xi.astype(float))
+    refi = T.inverse_array(Xi.astype(float))
+    if form == "single":
+        got, goti = np.asarray(T(X[0]), dtype=float), np.asarray(T.inverse(X[0]), dtype=float)
+        ref, refi = ref[0], refi[0]
+    elif form == "typed-array":
+        got, goti = np.asarray(T(darsia.make_coordinate(X)), dtype=float), np.asarray(T.inverse(darsia.make_coordinate(X)), dtype=float)
+    else:
+        got, goti = np.asarray(T(X), dtype=float), np.asarray(T.inverse(X), dtype=float)
+    ctx.ensure(f"call on {dtype} points == call on the same points as float64", eq(got, ref))
+    ctx.ensure(f"inverse on {dtype} points == inverse on the same points as float64", eq(goti, refi))
+    back = np.asarray(T.inverse(T(X if form != "single" else X[0])), dtype=float)
+    ctx.ensure("inverse(call(x)) == x", eq(back, Xi.astype(float) if form != "single" else Xi[0].astype(float)))
